@@ -21,7 +21,7 @@ def ev_call(self, e, st):
     line = e.lineno
     # ---------------- names
     if isinstance(f, ast.Name):
-        name = f.id
+        name = models.ALIASES.get(f.id, f.id)
         if name in EXC_NAMES:
             # exception constructor: arguments are evaluated (may raise) but otherwise ignored
             for st1, vals in self.ev_list([a for a in e.args if not _is_pure_str(a)], st):
@@ -783,7 +783,9 @@ def method_call(self, st, base, attr, args, node):
                 k = bound_var("uk", sort_of(ks.ty[1]))
                 newkeys = fresh_const("ukeys", ks.t.sort())
                 s = st.assume(z3.ForAll([k], z3.Contains(newkeys, z3.Unit(k)) == z3.Or(z3.Contains(ks.t, z3.Unit(k)), z3.Contains(nk.t, z3.Unit(k)))))
-                newmap = z3.Lambda([k], z3.If(z3.Contains(nk.t, z3.Unit(k)), z3.Select(nm.t, k), z3.Select(mp.t, k)))
+                newmap = fresh_const("umap", mp.t.sort())
+                s.conds.append(z3.ForAll([k], z3.Select(newmap, k) == z3.If(z3.Contains(nk.t, z3.Unit(k)), z3.Select(nm.t, k), z3.Select(mp.t, k)),
+                                         patterns=[z3.Select(newmap, k)]))
                 self.write_field(s, base, cls, "keys", Val(newkeys, ks.ty), line)
                 self.write_field(s, base, cls, "map", Val(newmap, mp.ty), line)
                 yield s, Val(z3.IntVal(0), "none")
